@@ -93,24 +93,66 @@ func (ms *Modules) Read(name string) error {
 }
 
 // Parse parses data as YANG source and adds it to ms.  The name should reflect
-// the source of data.
-// Note: If an error is returned, valid modules might still have been added to
-// the Modules cache.
+// the source of data.  If an error is returned then nothing has been added to
+// ms.
 func (ms *Modules) Parse(data, name string) error {
 	ss, err := Parse(data, name)
 	if err != nil {
 		return err
 	}
+	// Build every statement before registering anything, with a type
+	// dictionary of its own, so that a rejected text leaves no trace.
+	td := newTypeDictionary()
+	nodes := make([]Node, 0, len(ss))
 	for _, s := range ss {
-		n, err := buildASTWithTypeDict(s, ms.typeDict)
+		n, err := buildASTWithTypeDict(s, td)
 		if err != nil {
 			return err
 		}
+		nodes = append(nodes, n)
+	}
+	saved := ms.snapshotNames()
+	for _, n := range nodes {
 		if err := ms.add(n); err != nil {
+			ms.restoreNames(saved)
 			return err
 		}
 	}
+	ms.typeDict.merge(td)
 	return nil
+}
+
+// nameMaps is a copy of the maps that add modifies.
+type nameMaps struct {
+	modules, subModules, unrevisioned map[string]*Module
+}
+
+func copyModuleMap(m map[string]*Module) map[string]*Module {
+	c := make(map[string]*Module, len(m))
+	for k, v := range m {
+		c[k] = v
+	}
+	return c
+}
+
+// snapshotNames returns a copy of the maps that add modifies.
+func (ms *Modules) snapshotNames() nameMaps {
+	return nameMaps{copyModuleMap(ms.Modules), copyModuleMap(ms.SubModules), copyModuleMap(ms.unrevisioned)}
+}
+
+// restoreNames undoes every add since the snapshot s was taken.
+func (ms *Modules) restoreNames(s nameMaps) {
+	restore := func(m, saved map[string]*Module) {
+		for k := range m {
+			delete(m, k)
+		}
+		for k, v := range saved {
+			m[k] = v
+		}
+	}
+	restore(ms.Modules, s.modules)
+	restore(ms.SubModules, s.subModules)
+	restore(ms.unrevisioned, s.unrevisioned)
 }
 
 // GetModule returns the Entry of the module named by name.  GetModule will
@@ -268,10 +310,16 @@ func (ms *Modules) FindModuleByNamespace(ns string) (*Module, error) {
 		if m.Namespace.Name == ns {
 			switch {
 			case m == found:
-			case found != nil:
+			case found == nil:
+				found = m
+			case found.Name != m.Name:
 				return nil, fmt.Errorf("namespace %s matches two or more modules (%s, %s)",
 					ns, found.Name, m.Name)
-			default:
+			case m == ms.Modules[m.Name] || (found != ms.Modules[m.Name] && found.FullName() < m.FullName()):
+				// Several loaded revisions of one module are not
+				// different modules: the answer is the revision the
+				// bare name refers to (else the latest with this
+				// namespace), whatever the map order.
 				found = m
 			}
 		}
